@@ -53,6 +53,7 @@ def run(ck, m):
     _run(ck, m)
     wrapper_verbatim(ck, m)
     own_id_rule(ck, m)
+    one_key_per_message(ck, m)
 
 
 def _run(ck, m):
@@ -483,3 +484,42 @@ def own_id_rule(ck, m):
               'is acknowledged reach the secondaries as two copies of the first' % (v, sorted({c for _, c in consts}), consts[0][0]),
               lb.loc(tb))
     ck.floor('C04.i', n, 5, 'oplog arms of the replication loop')
+
+
+def one_key_per_message(ck, m):
+    """C04.j — an arm whose replicated message names one key (the request's own key field) changes that key only: every write of
+    Database.map it makes outside the conflict resolver (which replicates its own record) is keyed by that field.  A second key
+    changed in passing (the grants of a removed user) exists on the node that ran the arm and nowhere else."""
+    ck.rule('C04.j', 'an arm that replicates one key writes only that key: every Database.map write reachable from a Set / Remove / Increment '
+                     'arm outside the conflict resolver is keyed by the request\'s own key field (what the emitted message carries)')
+    from props.C02 import resolver_fn
+    rid = resolver_fn(m).id
+    d, sw = m.dispatcher()
+    em = repl.table_emissions(m)
+    n = 0
+    for v in sorted(sw[1]):
+        if v not in em or not em[v]:
+            continue
+        effs, raw = m.arm_effects(v)
+        writes = [(ev, info) for ev, kind, info in effs if kind == 'map-write' and 'key' in info]
+        own = [(ev, info) for ev, info in writes if info['key'] and all(
+            k[0] == 'top' and any(q[0] == 'f' and q[2] == 'key' for q in k[-1]) for k in info['key'])]
+        if not own:
+            continue            # the arm is not keyed by a `key` field of the request (create-db, users: judged by C04.a / C09)
+        n += 1
+        other = {}
+        for ev, info in writes:
+            if (ev, info) in own:
+                continue
+            if ev.frame.body.id == rid or any(cid == rid or cid.startswith(rid + '::') for cid, _ in ev.chain):
+                continue
+            # a function that replicates the record it writes itself (the resolution record of resolve_conflit)
+            if any(repl.sends_repl(m, cid) for cid, _ in ev.chain if not cid.startswith(d.id)):
+                continue
+            other.setdefault(ev.loc(), sorted(str(k[0]) for k in info['key']))
+        ck.ob('C04.j', 'dispatcher', '%s:writes-only-the-replicated-key' % v, not other,
+              'every map write of the %s arm is keyed by the request\'s key field' % v if not other else
+              'the %s arm also writes a key that is not the request\'s own (%s): the message the replication table emits names only the '
+              'request\'s key, so the other change exists on the node that ran the arm and on no other — the nodes stay apart for good'
+              % (v, other), sorted(other)[0] if other else '')
+    ck.floor('C04.j', n, 3, 'replicated arms keyed by the request key')
